@@ -1,6 +1,7 @@
 """C15 cmp_* — exhaustive enumeration of value pairs for every ordered pair of integer types, oracle __int128."""
 import os
 import vlib
+import c15_matrix
 
 LEVEL = "exploration"
 HERE = os.path.dirname(os.path.abspath(__file__))
@@ -151,6 +152,9 @@ def run(ctx):
     wides = vlib.parallel([(lambda d=d: build_wide(d)) for d in GNU])
     jobs += [(lambda b=b, d=d: ctx.run_harness(b, [], tag="c15-wide-" + d)) for d, b in zip(GNU, wides)]
     vlib.parallel(jobs)
+    # the operand-TYPE matrix: every integer type of the build (bool, the character types, ...), capability probed (c15_matrix.py)
+    c15_matrix.run(ctx)
+    m_rule, m_assumptions = c15_matrix.describe(ctx)
     ctx.rule = ("all 121 ordered pairs of {int8,uint8,int16,uint16,int32,uint32,int64,uint64,char,long long,unsigned long long} x 6 functions; "
                 "ALL value pairs when bits(T)+bits(U) <= %s, otherwise (all values of a <=16-bit side x boundary alphabet of the other) and boundary x boundary "
                 "with boundary = {min,min+1,-1,0,1,2,max-1,max, +-2^k-1, +-2^k, +-2^k+1 : k in 7,8,15,16,31,32,63}; oracle = comparison in __int128. "
@@ -158,13 +162,17 @@ def run(ctx):
                 "DIALECTS: the same enumeration built as C++17 and C++20 (quick: all pairs of 8-bit types exhaustively + boundary products). "
                 "CHAR SIGNEDNESS: the same enumeration (dialect bounds) and the constant-expression cases built with -funsigned-char (plain char unsigned, int8_t still signed) as C++14 and C++20. "
                 "128-BIT: in the GNU dialects (gnu++14, gnu++20) __int128 / unsigned __int128 paired with every type and each other over a boundary alphabet "
-                "(min, max, 0, +-1, +-2^k +-{0,1,5} for k up to 127), oracle = comparison of (sign, 128-bit magnitude)" % full_bits)
-    ctx.assumptions += ["__int128 comparison is the reference", "bool, wchar_t, char16_t/char32_t are not in the type alphabet",
-                        "wider-than-16-bit types are covered by the boundary alphabet, not exhaustively"]
+                "(min, max, 0, +-1, +-2^k +-{0,1,5} for k up to 127), oracle = comparison of (sign, 128-bit magnitude). " % full_bits) + m_rule
+    ctx.assumptions += ["__int128 comparison is the reference (value parts), comparison of (sign, 128-bit magnitude) in the 128-bit and operand-type-matrix parts",
+                        "bool, wchar_t, char16_t/char32_t (and char8_t) are in the type alphabet of the operand-type matrix only: all values of the one-byte types and of bool, "
+                        "the boundary alphabet for the wider ones; the exhaustive 8 x 16 / 16 x 16 bit products are made for the fixed-width types, char and long long",
+                        "wider-than-16-bit types are covered by the boundary alphabet, not exhaustively"] + m_assumptions
     ctx.note("constant-expression use: a generated TU with one static_assert per (function, ordered type pair, operand class pair with classes min/neg/zero/pos/max) = %d cases, compiled by g++ and clang++ at C++14, C++17 and C++20; every failing line is reported with its case id" % ctx.stats.get("constexpr_cases", 0))
 
 
 def replay(ctx, rec):
+    if c15_matrix.replay(ctx, rec):
+        return
     if rec["args"] and rec["args"][0] == "--constexpr-case-uchar":
         constexpr_part(ctx, only=rec["args"][1], uchar=True)
         return
